@@ -100,7 +100,7 @@ class StagingHelper_Local(object):
         src = ru.Url(src).path
         tgt = ru.Url(tgt).path
         self.mkdir(os.path.dirname(tgt), flags)
-        out, err, ret = ru.sh_callout('cp -r %s %s' % (src, tgt))
+        out, err, ret = ru.sh_callout(['cp', '-r', src, tgt])
         if ret:
             raise RuntimeError('copy %s -> %s failed: %s' % (src, tgt, err))
 
